@@ -327,6 +327,25 @@ class _Inliner:
             self._block_owner(self.tree.body, None, [], helpers)
             if self.count == before:
                 break
+        # a new helper that has been inlined at every place it is mentioned no longer exists as a unit of its own
+        self.removed = []
+        for (kind, owner, name), (node, _m) in list(helpers.items()):
+            inside = {id(x) for x in ast.walk(node)}
+            refs = 0
+            for x in ast.walk(self.tree):
+                if id(x) in inside:
+                    continue
+                if kind == "method" and isinstance(x, ast.Attribute) and x.attr == name:
+                    refs += 1
+                elif kind in ("function", "closure") and isinstance(x, ast.Name) and x.id == name:
+                    refs += 1
+            if refs == 0 and self.count:
+                for parent in ast.walk(self.tree):
+                    for fld in ("body", "orelse", "finalbody"):
+                        lst = getattr(parent, fld, None)
+                        if isinstance(lst, list) and node in lst:
+                            lst[lst.index(node)] = ast.copy_location(ast.Pass(), node)
+                            self.removed.append(name)
         return self.count
 
     # -- statement-level inlining
